@@ -30,8 +30,9 @@
        C02_find_rule_total, C02_find_rule_total_generic  an entry the searcher stored is found again and the rule
            found is filed under the entry's key;
        C02_find_rule_outcomes  every failure characterised; C02_find_rule_forget_foreign_parent_refuted the recorded
-           limitation of RuleDBForgetStrategy; C02_extractor_hands_out_nonunary_equivalence_refuted the open finding
-           (findings/oneway_equivalence_with_empty_sibling.py) and C02_repair_converts the proposed repair.
+           limitation of RuleDBForgetStrategy; C02_extractor_hands_out_nonunary_equivalence_refuted the finding
+           (findings/oneway_equivalence_with_empty_sibling.py; FIXED in /repo by 398db71: the witness is about the old
+           code, convert = false) and C02_repair_converts the repair (convert = true = /repo as it is).
    * CombinatorialSpecification.__init__ (model Spec/Grouping.v, proofs Spec/GroupingProofs.v, GroupingInit.v,
      GroupingProd.v, GroupingProdLink.v), for every input satisfying wf_input (Spec/GroupingWf.v: closed, one rule
      per class, equivalence rules unary with a rule for their child, chains of hidden classes end, every class
@@ -281,8 +282,9 @@ Theorem C02_find_rule_forget_foreign_parent_refuted :
     = inl (FPlain (mkR 0 1 RPlain)).
 Proof. exact find_rule_forget_foreign_parent_refuted. Qed.
 
-(* the code as it is: an equivalence rule handed out with several children can only be an unconverted rule of
-   rule_to_strategy (the open finding); with the proposed repair (convert := true) every rule rules() yields whose
+(* the code before fix 398db71 (convert = false): an equivalence rule handed out with several children can only be an
+   unconverted rule of rule_to_strategy (the finding, now fixed); with the repair (convert := true = /repo since
+   398db71) every rule rules() yields whose
    is_equivalence() is True has exactly one child - the hypothesis unary_eqv of the grouping theorems *)
 Theorem C02_equivalences_handed_out_unary : forall (T : table) (cap : Z -> bool) (get_r get_e : lookup) entries d d' fs e,
   (rules T cap get_r get_e false d entries = (d', fs, e) ->
@@ -460,7 +462,8 @@ Proof.
 Qed.
 
 (* ill-formed inputs on which the real constructor fails as the model does:
-   an equivalence rule with an empty sibling that was not converted (open finding, see below), and a cycle of hidden
+   an equivalence rule with an empty sibling that was not converted (finding fixed by 398db71, see below: rules() no
+   longer hands such a rule to the constructor), and a cycle of hidden
    classes (the loop never ends; only table universes with their arbitrary shifts produce it) *)
 Example C02_grouping_rejects_nonunary_equivalence :
   spec_init ex_empty 0 [R 0 [1; 9] true [0; 0]%Z 0; R 1 [] false [] 1] true = XErr XAssertPathUnary /\
@@ -474,7 +477,7 @@ Example C02_grouping_hidden_cycle_runs_out_of_fuel :
 Proof. vm_compute. split; reflexivity. Qed.
 End GR.
 
-(* ====================================================================== the open finding, in the models *)
+(* ====================================================================== the finding (fixed by 398db71), in the models *)
 Module FINDING.
 Import ClassDB.Model Searcher.Model RuleDB.Model Spec.FindRule Spec.Grouping.
 Open Scope Z_scope.
